@@ -9,7 +9,7 @@ git -C $WT checkout -q -- . && git -C $WT clean -fdq
 git -C $WT checkout -q --detach $(git -C /repo rev-parse HEAD) 2>/dev/null
 git -C $WT apply /verif/seeded/$M/patch.diff || { echo "$M: patch does not apply" >> $OUT; exit 0; }
 for id in "$@"; do
-  L=$(MLPE_REPO=$WT timeout 1500 ./check "$id" --tier quick 2>&1 | grep -E "^VIOLATION|TOOL-FAILURE" | head -2 | tr '\n' ' ')
+  L=$(MLPE_NO_EVIDENCE=1 MLPE_REPO=$WT timeout 1500 ./check "$id" --tier quick 2>&1 | grep -E "^VIOLATION|TOOL-FAILURE" | head -2 | tr '\n' ' ')
   rc=$?
   R=$(echo "$L" | grep -o "replay=[^ ]*" | head -1 | cut -d= -f2)
   K=""
